@@ -276,3 +276,75 @@ fn injected_option(prop: &Value) -> bool {
         Some("props") | Some("emits") | Some("name")
     )
 }
+
+/// C12: the optimize=true output may differ from the optimize=false output only by hint
+/// arguments (positions 4-5 of a vnode call: a numeric patch flag and an array of string
+/// literals) and by a trailing `_: <number>` entry of slot objects.
+pub fn only_hints_differ(on: &Value, off: &Value, path: &str) -> Result<(), String> {
+    match (on, off) {
+        (Value::Object(a), Value::Object(b)) => {
+            if ty(on) != ty(off) {
+                return Err(format!("{path}: node type {:?} vs {:?}", ty(on), ty(off)));
+            }
+            for (k, av) in a {
+                if SKIP_KEYS.contains(&k.as_str()) {
+                    continue;
+                }
+                let bv = b.get(k).unwrap_or(&Value::Null);
+                only_hints_differ(av, bv, &format!("{path}.{k}"))?;
+            }
+            Ok(())
+        }
+        (Value::Array(a), Value::Array(b)) => {
+            if a.len() == b.len() {
+                for (i, (x, y)) in a.iter().zip(b.iter()).enumerate() {
+                    only_hints_differ(x, y, &format!("{path}[{i}]"))?;
+                }
+                return Ok(());
+            }
+            let last = path.rsplit('.').next().unwrap_or("");
+            if last == "arguments" && b.len() == 3 && (a.len() == 4 || a.len() == 5) {
+                for (i, (x, y)) in a.iter().zip(b.iter()).enumerate() {
+                    only_hints_differ(x, y, &format!("{path}[{i}]"))?;
+                }
+                let flag = &a[3]["expression"];
+                if ty(flag) != "NumericLiteral" {
+                    return Err(format!("{path}[3]: extra argument is not a numeric patch flag"));
+                }
+                if a.len() == 5 {
+                    let dp = &a[4]["expression"];
+                    let ok = ty(dp) == "ArrayExpression"
+                        && dp["elements"]
+                            .as_array()
+                            .map(|es| es.iter().all(|e| ty(&e["expression"]) == "StringLiteral"))
+                            .unwrap_or(false);
+                    if !ok {
+                        return Err(format!("{path}[4]: extra argument is not a list of prop names"));
+                    }
+                }
+                return Ok(());
+            }
+            if last == "properties" && a.len() == b.len() + 1 {
+                for (i, (x, y)) in a.iter().zip(b.iter()).enumerate() {
+                    only_hints_differ(x, y, &format!("{path}[{i}]"))?;
+                }
+                let extra = &a[b.len()];
+                if ty(extra) == "KeyValueProperty"
+                    && extra["key"]["value"].as_str() == Some("_")
+                    && ty(&extra["value"]) == "NumericLiteral"
+                {
+                    return Ok(());
+                }
+                return Err(format!("{path}: extra property is not the `_` slot flag"));
+            }
+            Err(format!("{path}: list length {} vs {}", a.len(), b.len()))
+        }
+        (x, y) => {
+            if x == y {
+                Ok(())
+            } else {
+                Err(format!("{path}: {x} vs {y}"))
+            }
+        }
+    }
+}
